@@ -33,6 +33,8 @@ type Cell struct {
 	ID  int
 	// shared marks cells observed by the concurrency race monitor
 	Obj interface{} // engine object attached (mutex state etc.)
+	Site ssa.Instruction // allocation site (race monitor / shared-access scheduling points)
+	acc  *accRec
 }
 
 type Ptr struct {
